@@ -20,8 +20,21 @@ import (
 	"golang.org/x/tools/go/ssa/ssautil"
 )
 
-const RepoDir = "/repo"
+// RepoDir is the tree that is encoded. It is /repo; GOSYM_REPO redirects a run to a
+// scratch worktree (used only to evaluate seeded changes in parallel, never by the
+// commands registered in MANIFEST.json). GOSYM_OUT redirects out/ and evidence/.
+var RepoDir = envOr("GOSYM_REPO", "/repo")
+
 const VerifDir = "/verif"
+
+var OutRoot = envOr("GOSYM_OUT", VerifDir)
+
+func envOr(k, d string) string {
+	if v := os.Getenv(k); v != "" {
+		return v
+	}
+	return d
+}
 const ModPath = "github.com/bbockelm/cedar"
 
 type HarnessInfo struct {
@@ -326,8 +339,8 @@ func runOne(l *Loaded, h *HarnessInfo, opts CheckOpts, known []KnownFinding) *Ha
 	if mp, err := strconv.Atoi(os.Getenv("VERIF_MAXPATHS")); err == nil && mp > 0 {
 		cfg.MaxPaths = mp
 	}
-	os.MkdirAll(filepath.Join(VerifDir, "out", "smt"), 0o755)
-	cfg.Transcript = filepath.Join(VerifDir, "out", "smt", h.Name+".smt2")
+	os.MkdirAll(filepath.Join(OutRoot, "out", "smt"), 0o755)
+	cfg.Transcript = filepath.Join(OutRoot, "out", "smt", h.Name+".smt2")
 	res := &HarnessResult{Info: h, Transcript: cfg.Transcript, KnownHits: map[string]int{}}
 	res.Stats.Covers = map[string]int{}
 	res.Stats.Funcs = map[string]int{}
@@ -369,7 +382,7 @@ func runOne(l *Loaded, h *HarnessInfo, opts CheckOpts, known []KnownFinding) *Ha
 					wcfg := cfg
 					wcfg.Transcript = ""
 					if i == 0 {
-						wcfg.Transcript = filepath.Join(VerifDir, "out", "smt", h.Name+".w0.smt2")
+						wcfg.Transcript = filepath.Join(OutRoot, "out", "smt", h.Name+".w0.smt2")
 					}
 					in := NewInterp(l.Prog, wcfg)
 					for _, c := range items[i] {
@@ -710,12 +723,12 @@ func cleanInputs(m map[string]any) map[string]any {
 func replayAll(l *Loaded, results []*HarnessResult, viols []*Violation, paths map[*Violation]string, opts CheckOpts) (int, []string) {
 	var notes []string
 	validated := 0
-	outDir := filepath.Join(VerifDir, "out", "replays", opts.Prop)
+	outDir := filepath.Join(OutRoot, "out", "replays", opts.Prop)
 	os.RemoveAll(outDir)
 	os.MkdirAll(outDir, 0o755)
 	// one overlay directory per property, so that checks of different properties can
 	// run side by side without rewriting each other's files mid-compile
-	overlay, err := writeOverlayFiles(l.Dirs, filepath.Join(VerifDir, "out", "overlay-"+opts.Prop))
+	overlay, err := writeOverlayFiles(l.Dirs, filepath.Join(OutRoot, "out", "overlay-"+opts.Prop))
 	if err != nil {
 		return 0, []string{"cannot write overlay: " + err.Error()}
 	}
@@ -859,12 +872,12 @@ func Replay(path string) int {
 		return 2
 	}
 	dirs := harnessDirs()
-	overlay, err := writeOverlayFiles(dirs, filepath.Join(VerifDir, "out", "overlay-replay"))
+	overlay, err := writeOverlayFiles(dirs, filepath.Join(OutRoot, "out", "overlay-replay"))
 	if err != nil {
 		fmt.Fprintln(os.Stderr, err)
 		return 2
 	}
-	cex := filepath.Join(VerifDir, "out", "replay-one.json")
+	cex := filepath.Join(OutRoot, "out", "replay-one.json")
 	cb, _ := json.Marshal([]replayCase{{v.Harness, v.Inputs}})
 	os.WriteFile(cex, cb, 0o644)
 	res, out, _ := runNative(v.PkgDir, overlay, cex, 10*time.Minute, v.Kind == "race")
